@@ -1,6 +1,6 @@
 (** C16: derive inputs that must be rejected are rejected by the front end model. *)
 From Deserr Require Import Base Pointer Kinds Value Scalars Types Derive DeriveSpec.
-From Deserr.proofs Require Import RejectMerge.
+From Deserr.proofs Require Import RejectMerge RejectMergeF.
 
 Section Cont.
   Context {T : Type}.
@@ -143,6 +143,231 @@ Section Cont.
   Qed.
 End Cont.
 
+
+(** ** field attributes *)
+Section Fld.
+  Context {T : Type}.
+  Definition FInv (l : list (fattr T)) (ca : fattrs T) : Prop :=
+    existsb f_is_bad l = false
+    /\ (forall s, @fhas T s ca = Nat.leb 1 (fcnt s l))
+    /\ (forall s, (fcnt s l <= 1)%nat)
+    /\ fhas FsFrom ca && fhas FsTry ca = false.
+
+  Lemma FInv_default : FInv [] fa_empty.
+  Proof. repeat split; try (intros []; reflexivity). intros []; cbn; lia. Qed.
+
+  Lemma FInv_single a o : single_fattr a = Some o -> FInv [a] o.
+  Proof.
+    destruct a as [ | | | | | | | | | | ]; cbn [single_fattr]; intros H; inversion H; subst o;
+      (split; [reflexivity|split; [intros []; reflexivity|split; [intros []; cbn; lia|reflexivity]]]).
+  Qed.
+
+  Lemma leb1_add_f a b : (a <= 1)%nat -> (b <= 1)%nat ->
+    Nat.leb 1 (a + b) = Nat.leb 1 a || Nat.leb 1 b.
+  Proof. intros; destruct a as [|[|a]], b as [|[|b]]; cbn; try lia; reflexivity. Qed.
+
+  Lemma FInv_merge l1 l2 this o r :
+    FInv l1 this -> FInv l2 o -> merge_fattrs this o = Some r -> FInv (l1 ++ l2) r.
+  Proof.
+    intros (B1 & H1 & C1 & X1) (B2 & H2 & C2 & X2) Hm.
+    destruct (merge_fattrs_inv _ _ _ Hm) as (Hu & Hex & Hf & Ht).
+    split; [rewrite existsb_app, B1, B2; reflexivity|].
+    split; [intros s; rewrite Hu, fcnt_app, leb1_add_f by auto; rewrite H1, H2; reflexivity|].
+    split.
+    - intros s. rewrite fcnt_app. specialize (Hex s). rewrite H1, H2 in Hex.
+      specialize (C1 s). specialize (C2 s).
+      destruct (fcnt s l1) as [|[|n1]], (fcnt s l2) as [|[|n2]]; cbn in *; try lia; discriminate.
+    - rewrite !Hu.
+      destruct (fhas FsFrom this) eqn:A, (fhas FsTry this) eqn:B, (fhas FsFrom o) eqn:C, (fhas FsTry o) eqn:D;
+        cbn in *; try reflexivity; try discriminate;
+        try (specialize (Hf eq_refl); discriminate);
+        try (destruct (Ht eq_refl); discriminate).
+  Qed.
+
+  Lemma FInv_group_from l0 this g r :
+    FInv l0 this ->
+    fold_left (fun acc a => match acc with
+                            | None => None
+                            | Some this => match single_fattr a with
+                                           | None => None
+                                           | Some o => merge_fattrs this o
+                                           end
+                            end) g (Some this) = Some r ->
+    FInv (l0 ++ g) r.
+  Proof.
+    revert l0 this. induction g as [|a g IH]; intros l0 this Hi H.
+    - cbn in H. inversion H; subst. rewrite app_nil_r. exact Hi.
+    - cbn [fold_left] in H. destruct (single_fattr a) as [o|] eqn:Es.
+      + destruct (merge_fattrs this o) as [t1|] eqn:Em.
+        * replace (l0 ++ a :: g) with ((l0 ++ [a]) ++ g) by (rewrite <- app_assoc; reflexivity).
+          apply (IH _ t1); [|exact H]. eapply FInv_merge; [exact Hi|apply FInv_single; exact Es|exact Em].
+        * rewrite fold_opt_none in H. discriminate.
+      + rewrite fold_opt_none in H. discriminate.
+  Qed.
+
+  Lemma FInv_group g o : parse_fgroup g = Some o -> g <> [] /\ FInv g o.
+  Proof.
+    unfold parse_fgroup. destruct g as [|a g]; [discriminate|]. intros H.
+    split; [discriminate|]. apply (FInv_group_from [] fa_empty (a :: g) o FInv_default H).
+  Qed.
+
+  Lemma FInv_read_from l0 this gs r :
+    FInv l0 this ->
+    fold_left (fun acc g => match acc with
+                            | None => None
+                            | Some this => match parse_fgroup g with
+                                           | None => None
+                                           | Some o => merge_fattrs this o
+                                           end
+                            end) gs (Some this) = Some r ->
+    Forall (fun g => g <> []) gs /\ FInv (l0 ++ List.concat gs) r.
+  Proof.
+    revert l0 this. induction gs as [|g gs IH]; intros l0 this Hi H.
+    - cbn in H. inversion H; subst. cbn. rewrite app_nil_r. split; [constructor|exact Hi].
+    - cbn [fold_left] in H. destruct (parse_fgroup g) as [o|] eqn:Eg.
+      + destruct (merge_fattrs this o) as [t1|] eqn:Em.
+        * destruct (FInv_group _ _ Eg) as [Hne Hio].
+          destruct (IH (l0 ++ g) t1 (FInv_merge _ _ _ _ _ Hi Hio Em) H) as [Hall Hr].
+          split; [constructor; assumption|]. cbn [List.concat]. rewrite app_assoc. exact Hr.
+        * rewrite fold_opt_none in H. discriminate.
+      + rewrite fold_opt_none in H. discriminate.
+  Qed.
+
+  Lemma FInv_read gs ca : read_fattrs gs = Some ca -> Forall (fun g => g <> []) gs /\ FInv (List.concat gs) ca.
+  Proof. intros H. apply (FInv_read_from [] fa_empty gs ca FInv_default H). Qed.
+
+
+  Theorem fattrs_rejectable_rejected (gs : list (list (fattr T))) :
+    fattrs_rejectable gs = true -> read_fattrs gs = None.
+  Proof.
+    intros Hr. destruct (read_fattrs gs) as [ca|] eqn:E; [|reflexivity]. exfalso.
+    destruct (FInv_read _ _ E) as [Hne (Hbad & Hhas & Hcnt & Hx)].
+    unfold fattrs_rejectable in Hr.
+    assert (Hempty : existsb (fun g : list (fattr T) => match g with [] => true | _ => false end) gs = false).
+    { apply Bool.not_true_is_false. intros Hc. apply existsb_exists in Hc. destruct Hc as [g [Hin Hg]].
+      rewrite Forall_forall in Hne. specialize (Hne g Hin). destruct g; [contradiction|discriminate]. }
+    rewrite Hempty, Hbad in Hr. cbn [orb] in Hr.
+    set (flat := List.concat gs) in *.
+    assert (C1 : (count_if f_is_rename flat <= 1)%nat) by exact (Hcnt FsRn).
+    assert (C2 : (count_if f_is_default flat <= 1)%nat) by exact (Hcnt FsDf).
+    assert (C3 : (count_if f_is_missing flat <= 1)%nat) by exact (Hcnt FsMs).
+    assert (C4 : (count_if f_is_error flat <= 1)%nat) by exact (Hcnt FsEr).
+    assert (C5 : (count_if f_is_map flat <= 1)%nat) by exact (Hcnt FsMp).
+    assert (C6 : (count_if f_is_from flat <= 1)%nat) by exact (Hcnt FsFrom).
+    assert (C7 : (count_if f_is_try_from flat <= 1)%nat) by exact (Hcnt FsTry).
+    rewrite (ltb1_count_le _ _ C1), (ltb1_count_le _ _ C2), (ltb1_count_le _ _ C3), (ltb1_count_le _ _ C4),
+      (ltb1_count_le _ _ C5), (ltb1_count_le _ _ C6), (ltb1_count_le _ _ C7) in Hr. cbn [orb] in Hr.
+    assert (Afrom : is_some (fa_from ca) = existsb f_is_from flat) by (rewrite <- leb1_count; exact (Hhas FsFrom)).
+    assert (Atry : is_some (fa_try_from ca) = existsb f_is_try_from flat) by (rewrite <- leb1_count; exact (Hhas FsTry)).
+    rewrite <- Afrom, <- Atry in Hr.
+    assert (Hx' : is_some (fa_from ca) && is_some (fa_try_from ca) = false) by exact Hx.
+    rewrite Hx' in Hr. discriminate.
+  Qed.
+End Fld.
+
+(** ** variant attributes: two slots *)
+Lemma merge_vattrs_inv self other r :
+  merge_vattrs self other = Some r ->
+  (is_some (va_rename r) = is_some (va_rename self) || is_some (va_rename other))
+  /\ (is_some (va_rename_all r) = is_some (va_rename_all self) || is_some (va_rename_all other))
+  /\ is_some (va_rename self) && is_some (va_rename other) = false
+  /\ is_some (va_rename_all self) && is_some (va_rename_all other) = false.
+Proof.
+  destruct self as [r1 a1], other as [r2 a2]. unfold merge_vattrs, merge1. cbn [va_rename va_rename_all].
+  destruct a2, a1, r2, r1; cbn; intros H; inversion H; subst; cbn; repeat split; reflexivity.
+Qed.
+
+Definition VInv (l : list vattr) (va : vattrs) : Prop :=
+  existsb v_is_bad l = false
+  /\ is_some (va_rename va) = Nat.leb 1 (count_if v_is_rename l)
+  /\ is_some (va_rename_all va) = Nat.leb 1 (count_if v_is_rename_all l)
+  /\ (count_if v_is_rename l <= 1)%nat /\ (count_if v_is_rename_all l <= 1)%nat.
+
+Lemma count_if_app {A} (f : A -> bool) l1 l2 : count_if f (l1 ++ l2) = (count_if f l1 + count_if f l2)%nat.
+Proof. unfold count_if. rewrite filter_app, app_length. reflexivity. Qed.
+
+Lemma VInv_single a o : single_vattr a = Some o -> VInv [a] o.
+Proof.
+  destruct a as [s|[r|]| |]; cbn [single_vattr]; intros H; inversion H; subst o; repeat split; cbn; lia.
+Qed.
+
+Lemma leb1_add' a b : (a <= 1)%nat -> (b <= 1)%nat -> Nat.leb 1 (a + b) = Nat.leb 1 a || Nat.leb 1 b.
+Proof. intros; destruct a as [|[|a]], b as [|[|b]]; cbn; try lia; reflexivity. Qed.
+
+Lemma VInv_merge l1 l2 this o r :
+  VInv l1 this -> VInv l2 o -> merge_vattrs this o = Some r -> VInv (l1 ++ l2) r.
+Proof.
+  intros (B1 & R1 & A1 & CR1 & CA1) (B2 & R2 & A2 & CR2 & CA2) Hm.
+  destruct (merge_vattrs_inv _ _ _ Hm) as (Hr & Ha & Xr & Xa).
+  rewrite R1, R2 in Xr. rewrite A1, A2 in Xa.
+  unfold VInv. rewrite existsb_app, B1, B2, !count_if_app, Hr, Ha, R1, R2, A1, A2.
+  rewrite !leb1_add' by assumption.
+  repeat split.
+  - destruct (count_if v_is_rename l1) as [|[|n1]], (count_if v_is_rename l2) as [|[|n2]]; cbn in *; try lia; discriminate.
+  - destruct (count_if v_is_rename_all l1) as [|[|n1]], (count_if v_is_rename_all l2) as [|[|n2]]; cbn in *; try lia; discriminate.
+Qed.
+
+Lemma VInv_group_from l0 this g r :
+  VInv l0 this ->
+  fold_left (fun acc a => match acc with
+                          | None => None
+                          | Some this => match single_vattr a with
+                                         | None => None
+                                         | Some o => merge_vattrs this o
+                                         end
+                          end) g (Some this) = Some r ->
+  VInv (l0 ++ g) r.
+Proof.
+  revert l0 this. induction g as [|a g IH]; intros l0 this Hi H.
+  - cbn in H. inversion H; subst. rewrite app_nil_r. exact Hi.
+  - cbn [fold_left] in H. destruct (single_vattr a) as [o|] eqn:Es.
+    + destruct (merge_vattrs this o) as [t1|] eqn:Em.
+      * replace (l0 ++ a :: g) with ((l0 ++ [a]) ++ g) by (rewrite <- app_assoc; reflexivity).
+        apply (IH _ t1); [|exact H]. eapply VInv_merge; [exact Hi|apply VInv_single; exact Es|exact Em].
+      * rewrite fold_opt_none in H. discriminate.
+    + rewrite fold_opt_none in H. discriminate.
+Qed.
+
+Lemma VInv_default : VInv [] va_default.
+Proof. repeat split; cbn; lia. Qed.
+
+Lemma VInv_read_from l0 this gs r :
+  VInv l0 this ->
+  fold_left (fun acc g => match acc with
+                          | None => None
+                          | Some this => match parse_vgroup g with
+                                         | None => None
+                                         | Some o => merge_vattrs this o
+                                         end
+                          end) gs (Some this) = Some r ->
+  Forall (fun g => g <> []) gs /\ VInv (l0 ++ List.concat gs) r.
+Proof.
+  revert l0 this. induction gs as [|g gs IH]; intros l0 this Hi H.
+  - cbn in H. inversion H; subst. cbn. rewrite app_nil_r. split; [constructor|exact Hi].
+  - cbn [fold_left] in H. destruct (parse_vgroup g) as [o|] eqn:Eg.
+    + destruct (merge_vattrs this o) as [t1|] eqn:Em.
+      * assert (Hg : g <> [] /\ VInv g o).
+        { unfold parse_vgroup in Eg. destruct g as [|a g']; [discriminate|]. split; [discriminate|].
+          apply (VInv_group_from [] va_default (a :: g') o VInv_default Eg). }
+        destruct Hg as [Hne Hio].
+        destruct (IH (l0 ++ g) t1 (VInv_merge _ _ _ _ _ Hi Hio Em) H) as [Hall Hr].
+        split; [constructor; assumption|]. cbn [List.concat]. rewrite app_assoc. exact Hr.
+      * rewrite fold_opt_none in H. discriminate.
+    + rewrite fold_opt_none in H. discriminate.
+Qed.
+
+Theorem vattrs_rejectable_rejected gs : vattrs_rejectable gs = true -> read_vattrs gs = None.
+Proof.
+  intros Hr. destruct (read_vattrs gs) as [va|] eqn:E; [|reflexivity]. exfalso.
+  destruct (VInv_read_from [] va_default gs va VInv_default E) as [Hne (Hbad & _ & _ & C1 & C2)].
+  cbn [app] in *. unfold vattrs_rejectable in Hr.
+  assert (Hempty : existsb (fun g : list vattr => match g with [] => true | _ => false end) gs = false).
+  { apply Bool.not_true_is_false. intros Hc. apply existsb_exists in Hc. destruct Hc as [g [Hin Hg]].
+    rewrite Forall_forall in Hne. specialize (Hne g Hin). destruct g; [contradiction|discriminate]. }
+  rewrite Hempty, Hbad in Hr.
+  apply Nat.ltb_ge in C1. apply Nat.ltb_ge in C2. rewrite C1, C2 in Hr. discriminate.
+Qed.
+
 (** ** the whole item *)
 Lemma expand_rejects_cattrs (it : item tpos) :
   cattrs_rejectable (it_attrs it) (is_struct_shape (it_shape it)) = true -> expand it = Reject.
@@ -151,3 +376,104 @@ Proof.
   destruct (read_cattrs (it_attrs it)) as [ca|]; [|reflexivity]. rewrite H. reflexivity.
 Qed.
 
+
+(** ** the body of the item *)
+Lemma dall_not_accept {A B} (g : A -> dres B) (l : list A) :
+  (exists x, In x l /\ forall y, g x <> Accept y) -> forall r, dall (map g l) <> Accept r.
+Proof.
+  induction l as [|a l IH]; intros [x [Hin Hx]] r; [destruct Hin|].
+  cbn [map dall]. destruct (g a) as [y| |] eqn:Ea; cbn [dbind]; try discriminate.
+  destruct Hin as [<-|Hin]; [exfalso; apply (Hx y); exact Ea|].
+  destruct (dall (map g l)) as [ys| |] eqn:El; cbn [dbind]; try discriminate.
+  exfalso. apply (IH (ex_intro _ x (conj Hin Hx)) ys). reflexivity.
+Qed.
+
+Lemma named_struct_rejects (fs : list (field tpos)) ra d :
+  fields_rejectable fs = true -> forall s, named_struct fs ra d <> Accept s.
+Proof.
+  intros H s. unfold fields_rejectable in H. apply existsb_exists in H. destruct H as [f [Hin Hf]].
+  apply fattrs_rejectable_rejected in Hf.
+  unfold named_struct, named_vectors.
+  match goal with |- context [dall (map ?g fs)] =>
+    destruct (dall (map g fs)) as [extra| |] eqn:E end; cbn [dbind]; try discriminate.
+  exfalso. eapply dall_not_accept; [|exact E]. exists f. split; [exact Hin|].
+  intros y. rewrite Hf. discriminate.
+Qed.
+
+Lemma expand_variant_rejects ca (v : variant tpos) :
+  variant_rejectable v = true -> forall cv, expand_variant ca v <> Accept cv.
+Proof.
+  intros H cv. unfold variant_rejectable in H. apply Bool.orb_true_iff in H. unfold expand_variant.
+  destruct H as [H|H].
+  - apply vattrs_rejectable_rejected in H. rewrite H. discriminate.
+  - destruct (read_vattrs (vr_attrs v)) as [va|]; [|discriminate].
+    destruct (vr_shape v) as [|fs|]; try discriminate.
+    destruct (named_struct fs (va_rename_all va) (ca_deny ca)) as [s| |] eqn:E; cbn [dbind]; try discriminate.
+    exfalso. eapply named_struct_rejects; [exact H|exact E].
+Qed.
+
+Lemma expand_variant_data ca (v : variant tpos) cv :
+  expand_variant ca v = Accept cv -> has_data v = true -> cv_data cv <> VDUnit.
+Proof.
+  unfold expand_variant, has_data. destruct (read_vattrs (vr_attrs v)) as [va|]; [|discriminate].
+  destruct (vr_shape v) as [|fs|]; try discriminate.
+  destruct (named_struct fs (va_rename_all va) (ca_deny ca)) as [s| |]; cbn [dbind]; try discriminate.
+  intros H _. inversion H; subst. cbn. discriminate.
+Qed.
+
+Lemma dall_in {A B} (g : A -> dres B) (l : list A) r x :
+  dall (map g l) = Accept r -> In x l -> exists y, In y r /\ g x = Accept y.
+Proof.
+  revert r. induction l as [|a l IH]; intros r H Hin; [destruct Hin|].
+  cbn [map dall] in H. destruct (g a) as [y| |] eqn:Ea; cbn [dbind] in H; try discriminate.
+  destruct (dall (map g l)) as [ys| |] eqn:El; cbn [dbind] in H; try discriminate.
+  inversion H; subst. destruct Hin as [<-|Hin].
+  - exists y. split; [left; reflexivity|exact Ea].
+  - destruct (IH ys eq_refl Hin) as [y' [Hy' Hg]]. exists y'. split; [right; exact Hy'|exact Hg].
+Qed.
+
+(** what the invariant says about a successfully read container attribute set *)
+Lemma read_cattrs_flags (gs : list (list (cattr tpos))) ca :
+  read_cattrs gs = Some ca ->
+  is_some (ca_tag ca) = existsb c_is_tag (List.concat gs)
+  /\ is_some (ca_from ca) = existsb c_is_from (List.concat gs)
+  /\ is_some (ca_try_from ca) = existsb c_is_try_from (List.concat gs).
+Proof.
+  intros E. destruct (Inv_read _ _ E) as [_ (_ & Hhas & _ & _)].
+  repeat split; rewrite <- leb1_count; [exact (Hhas STag)|exact (Hhas SFrom)|exact (Hhas STry)].
+Qed.
+
+Theorem rejectable_never_accepted (it : item tpos) :
+  rejectable it = true -> forall t, expand it <> Accept t.
+Proof.
+  intros H t. unfold rejectable in H. apply Bool.orb_true_iff in H. destruct H as [H|H].
+  - rewrite (expand_rejects_cattrs it H). discriminate.
+  - apply Bool.andb_true_iff in H. destruct H as [Hconv Hbody]. apply Bool.negb_true_iff in Hconv.
+    unfold expand. destruct (read_cattrs (it_attrs it)) as [ca|] eqn:E; [|discriminate].
+    destruct (negb (validate_cattrs ca (is_struct_shape (it_shape it)))); [discriminate|].
+    destruct (read_cattrs_flags _ _ E) as (Htag & Hfrom & Htry).
+    unfold uses_container_conversion in Hconv.
+    assert (Hf : existsb c_is_from (List.concat (it_attrs it)) = false /\ existsb c_is_try_from (List.concat (it_attrs it)) = false).
+    { split; apply Bool.not_true_is_false; intros Hc; apply existsb_exists in Hc; destruct Hc as [a [Hin Ha]];
+        assert (Hex : existsb (fun a => c_is_from a || c_is_try_from a) (List.concat (it_attrs it)) = true)
+          by (apply existsb_exists; exists a; split; [exact Hin|rewrite Ha; auto using Bool.orb_true_r]);
+        rewrite Hex in Hconv; discriminate. }
+    destruct Hf as [Hf1 Hf2]. rewrite Hf1 in Hfrom. rewrite Hf2 in Htry.
+    destruct (ca_try_from ca) as [x|]; [discriminate|]. destruct (ca_from ca) as [x|]; [discriminate|].
+    unfold body_rejectable in Hbody. destruct (it_shape it) as [fs| | |vs|]; try discriminate.
+    + destruct (named_struct fs (ca_rename_all ca) (ca_deny ca)) as [s| |] eqn:Es; cbn [dbind]; try discriminate.
+      exfalso. eapply named_struct_rejects; [exact Hbody|exact Es].
+    + destruct (dall (map (expand_variant ca) vs)) as [cvs| |] eqn:Ev; cbn [dbind]; try discriminate.
+      apply Bool.orb_true_iff in Hbody. destruct Hbody as [Hv|Hd].
+      * exfalso. apply existsb_exists in Hv. destruct Hv as [v [Hin Hv]].
+        eapply dall_not_accept; [|exact Ev]. exists v. split; [exact Hin|]. apply expand_variant_rejects. exact Hv.
+      * apply Bool.andb_true_iff in Hd. destruct Hd as [Hdata Hnotag]. apply Bool.negb_true_iff in Hnotag.
+        rewrite Hnotag in Htag. destruct (ca_tag ca) as [tag|]; [discriminate|].
+        apply existsb_exists in Hdata. destruct Hdata as [v [Hin Hv]].
+        destruct (dall_in _ _ _ v Ev Hin) as [cv [Hcv Hexp]].
+        assert (Hau : all_unit cvs = false).
+        { apply Bool.not_true_is_false. intros Hc. unfold all_unit in Hc. rewrite forallb_forall in Hc.
+          specialize (Hc cv Hcv). pose proof (expand_variant_data _ _ _ Hexp Hv) as Hnd.
+          destruct (cv_data cv); [apply Hnd; reflexivity|discriminate]. }
+        rewrite Hau. discriminate.
+Qed.
